@@ -103,11 +103,11 @@ VALUE_KINDS = collections.OrderedDict([
 ])
 
 
-def build(posonly, pos, va, kwonly, kw, nlocals, with_self):
+def build(posonly, pos, va, kwonly, kw, nlocals, with_self, selfname="self"):
     """-> code object for def f(<self,> p0.., /, q0.., *args, k0.., **kws): x0 = 1 .."""
-    key = (posonly, pos, va, kwonly, kw, nlocals, with_self)
+    key = (posonly, pos, va, kwonly, kw, nlocals, with_self, selfname)
     if key not in _CODE:
-        ps = (["self"] if with_self else []) + ["p%d" % i for i in range(posonly)]
+        ps = ([selfname] if with_self else []) + ["p%d" % i for i in range(posonly)]
         if posonly or (with_self and False):
             ps.append("/")
         ps += ["q%d" % i for i in range(pos)]
@@ -149,7 +149,9 @@ def run(lines, out, args):
             first = int(f[10])                # id of the first default value
             vals = f[11].split(",") if len(f) > 11 and f[11] != "-" else []    # value kinds of the defaults ('D': opaque)
             with_self = kind in ("M", "A")
-            code = build(posonly, pos, va, kwonly, kw, nlocals, with_self)
+            # the instance parameter of a method is whatever comes first, whatever it is called (`this`, `me`, `_`, `cls`)
+            selfname = "self" if kind != "A" else ["self", "this", "me", "_", "cls"][first % 5]
+            code = build(posonly, pos, va, kwonly, kw, nlocals, with_self, selfname)
             ids = [first + i for i in range(ndef)]
             defaults = tuple(VALUE_KINDS[vals[i]][1]() if i < len(vals) and vals[i] != "D" else Dflt(ids[i]) for i in range(ndef))
             # the function is described once BEFORE it gets its final defaults and attributes (a description must not
